@@ -685,6 +685,8 @@ class Progress(JupyterMixin, RenderHook):
             self._refresh_thread = None
         if self.transient:
             self.console.control(self._live_render.restore_cursor())
+        # the frame is no longer live: a later start() must not erase it (or the lines printed since)
+        self._live_render._shape = None
         if self.ipy_widget is not None and self.transient:  # pragma: no cover
             self.ipy_widget.clear_output()
             self.ipy_widget.close()
